@@ -62,7 +62,7 @@ Section Values.
     forall m, In m (dedupe raw) -> consumed_e e m = false.
   Proof.
     intros e raw tr ms H m Hin. destruct (accept_verbatim e raw tr ms H) as [-> | [-> | ->]].
-    - cbn [accept] in H. apply lift_stored in H as [_ Hv]. symmetry in Hv. apply negb_true_iff in Hv.
+    - cbn [accept] in H. destruct tr; [discriminate|]. apply lift_stored in H as [_ Hv]. symmetry in Hv. apply negb_true_iff in Hv.
       now apply (blip_verbatim_nothing_consumed raw).
     - reflexivity.
     - reflexivity.
@@ -185,6 +185,29 @@ Section Values.
       right. split; [|exists (if vb then v else canon v); split; [exact Hst|reflexivity]].
       intros Hi. apply (Hclean k); [|now apply (injected_read_keys x mt)].
       apply (dedupe_k_In fst) in Hst. apply in_map_iff. now exists (k, if vb then v else canon v).
+  Qed.
+
+  (* since the repair b5cfb32 nothing a gateway entry point stores has bytes after the object *)
+  Lemma gateway_no_trailing : forall e t d vb, accept_v e t = VStored d vb -> e <> EImport -> sd_trailing d = false.
+  Proof.
+    intros e t d vb H Hne. unfold AcceptV.accept_v in H.
+    destruct (accept e (ktop V kd t)) as [s| |ks vb0|] eqn:Ha; try discriminate.
+    destruct t as [| | |raw tr]; try (destruct vb0; discriminate).
+    destruct vb0; inversion H; subst d; cbn [sd_trailing]; [|reflexivity].
+    destruct tr; [|reflexivity]. exfalso. cbn [ktop] in Ha.
+    destruct (accept_verbatim e _ true ks Ha) as [-> | [-> | ->]]; [|now apply Hne|]; cbn [accept] in Ha; discriminate.
+  Qed.
+
+  Corollary roundtrip_gateway_writes : forall e x mt t d vb, accept_v e t = VStored d vb -> e <> EImport ->
+    (forall k, In k (map fst (sd_ms d)) -> ~ In k read_keys) ->
+    exists raw tr out, t = VObj raw tr /\ read canon x mt d = Some out /\
+      forall k o, In (k, o) (parsed out) <->
+        (In k (injected x mt) /\ o = OG) \/
+        (exists v esc, In (k, v, esc) (dedupe_k vkey raw) /\ consumed_e e (k, kd v, esc) = false /\
+                       o = OU (rendered x vb v)).
+  Proof.
+    intros e x mt t d vb Ha Hne Hclean. apply (roundtrip_all_pairs e x mt t d vb Ha); [|exact Hclean].
+    now apply (gateway_no_trailing e t d vb).
   Qed.
 
   (* ---------- the headline: a document without reserved-looking names ----------
